@@ -73,8 +73,8 @@ struct Outcome {
     sym_counts: Vec<usize>,
 }
 
-fn execute<L: Language>(ops: &[HOp], order: &[usize], nm: &Naming) -> Outcome {
-    let mut eg: EGraph<L> = EGraph::default();
+fn execute<L: Language, N: Analysis<L> + Default>(ops: &[HOp], order: &[usize], nm: &Naming) -> Outcome {
+    let mut eg: EGraph<L, N> = EGraph::new(N::default());
     let mut ids: Vec<AppliedId> = Vec::new();
     for o in ops {
         match o {
@@ -96,16 +96,20 @@ fn execute<L: Language>(ops: &[HOp], order: &[usize], nm: &Naming) -> Outcome {
 }
 
 fn run(c: &OrderCase, obs: &mut Obs) -> Result<(), String> {
-    crate::with_lang!(c.hist.lang, L => run_l::<L>(c, obs))
+    crate::with_lang!(c.hist.lang, L => run_l::<L, ()>(c, obs))
 }
 
-fn run_l<L: Language>(c: &OrderCase, obs: &mut Obs) -> Result<(), String> {
+fn run_analysis(c: &OrderCase, obs: &mut Obs) -> Result<(), String> {
+    crate::with_lang!(c.hist.lang, L => run_l::<L, crate::analyses::MinSize>(c, obs))
+}
+
+fn run_l<L: Language, N: Analysis<L> + Default>(c: &OrderCase, obs: &mut Obs) -> Result<(), String> {
     let nm = &c.hist.naming;
     let n_terms = c.hist.terms().len();
     let id_order: Vec<usize> = (0..n_terms).collect();
-    let o1 = execute::<L>(&c.hist.ops, &id_order, nm);
+    let o1 = execute::<L, N>(&c.hist.ops, &id_order, nm);
     let (ops2, order2) = reschedule(&c.hist, &c.perm, &c.flips);
-    let o2 = execute::<L>(&ops2, &order2, nm);
+    let o2 = execute::<L, N>(&ops2, &order2, nm);
     obs.cmp(4);
     if o1 != o2 {
         let h2 = Hist { lang: c.hist.lang, naming: nm.clone(), ops: ops2 };
@@ -170,6 +174,19 @@ pub fn property(tier: Tier) -> Property {
             panic_is_violation: false,
             render: |c: &OrderCase| format!("{} perm={:?} flips={:?}", c.hist.render(), c.perm, c.flips),
             rule: "as order-core, over a 5-name alphabet with leaves of up to 5 slots (symmetries that are products of cycles; several slots redundant in one step; orbits cut in the middle)",
+            case_timeout_s: tier.pick(30, 120),
+            exhaustive: false,
+        }));
+    }
+    {
+        let max_ops = tier.pick(7, 10);
+        stages.push(Box::new(Stage {
+            name: "order-core-analysis",
+            source: random(move || strategy(LangId::Core, max_ops), tier.pick(3000, 60_000)),
+            run: run_analysis,
+            panic_is_violation: false,
+            render: |c: &OrderCase| format!("{} perm={:?} flips={:?}", c.hist.render(), c.perm, c.flips),
+            rule: "as order-core, on e-graphs that carry an analysis (smallest term size), whose data change in unions",
             case_timeout_s: tier.pick(30, 120),
             exhaustive: false,
         }));
